@@ -407,9 +407,9 @@ func (fv *FV) storeIndex(st *State, base, idx, v Term, y *ast.IndexExpr) {
 	var oldElem string
 	if fv.usesBag() && !fv.inSwap {
 		before = fv.bagTerm(st, base, "0", "(slen "+base.S+")")
-		oldElem = sel(sel(E, b), app("+", "(soff "+base.S+")", idx.S))
+		oldElem = sel(sel(E, b), elemAddr(base.S, idx.S))
 	}
-	fv.heapSet(st, key, sto(E, b, sto(sel(E, b), app("+", "(soff "+base.S+")", idx.S), v.S)))
+	fv.heapSet(st, key, sto(E, b, sto(sel(E, b), elemAddr(base.S, idx.S), v.S)))
 	if fv.usesBag() && !fv.inSwap {
 		// ground instance of the point-update lemma for the window of this slice
 		after := fv.bagTerm(st, base, "0", "(slen "+base.S+")")
